@@ -10,9 +10,11 @@ cd $wt
 echo "== tree: $(PYTHONPATH=$wt /venv/bin/python -c 'import tinyflux;print(tinyflux.__file__)')"
 t=$(PYTHONPATH=$wt /venv/bin/python -m pytest -q -p no:cacheprovider tests 2>&1 | tail -1); echo "== tests with change: $t"
 PYTHONPATH=$wt /venv/bin/python SEEDED/demo.py >/dev/null 2>&1; dw=$?; echo "== demo with change: exit $dw"
-git stash push -q -- tinyflux
-PYTHONPATH=$wt /venv/bin/python SEEDED/demo.py >/dev/null 2>&1; dwo=$?; echo "== demo without change: exit $dwo"
-git stash pop -q
+# pristine copy (git stash is shared between worktrees - never use it here)
+clean=/dev/shm/clean-$id; rm -rf $clean; mkdir -p $clean; git archive HEAD | tar -x -C $clean
+PYTHONPATH=$clean /venv/bin/python SEEDED/demo.py >/dev/null 2>&1; dwo=$?; echo "== demo without change: exit $dwo"
+rm -rf $clean
+git diff -- tinyflux > $dst/patch.diff
 res=""
 for c in "$@"; do
   out=$(cd /verif && TFMON_REPO=$wt TFMON_EVIDENCE_DIR=/dev/shm/seeded-ev TFMON_OUT_DIR=/dev/shm/seeded-out ./check $c --tier ${TIER:-quick} 2>&1)
